@@ -320,6 +320,77 @@ fn touch2(f: &mut zip::read::ZipFile<'_>, bufs: &[u32], cap: u64, streamed: bool
     h
 }
 
+/// The provided methods of `std::io::Read` are part of the reading surface too (a type may override them):
+/// `read_to_end`, `read_to_string`, `read_exact`, `io::copy` into a `Vec`, `bytes()`. They are unbounded by
+/// nature, so they are only called where the *real* output is bounded by the input whatever the headers claim:
+/// undecoded entries (at most the file), Stored entries (at most the file), Deflate (at most 1032 x the input)
+/// on images of at most 64 KiB. A declared size must never be trusted as an allocation size.
+fn std_read_paths(ar: &mut ZipArchive<SimDisk>, i: usize, len: u64) -> u64 {
+    let mut h = 0u64;
+    let bounded = |f: &zip::read::ZipFile<'_>| {
+        #[allow(deprecated)]
+        let m = f.compression().to_u16();
+        (m == 0 || m == 8) && len <= 65536
+    };
+    let note_crc = |f: &zip::read::ZipFile<'_>, data: &[u8], how: &str| {
+        let exempt = f.extra_data().windows(2).any(|w| w == [0x01, 0x99]);
+        if !exempt && crate::content::crc32(data) != f.crc32() {
+            CRC_BAD.with(|c| {
+                let mut c = c.borrow_mut();
+                if c.is_none() {
+                    *c = Some(format!("entry {:?}: {how} succeeded with {} bytes whose CRC {:#x} != declared {:#x}", f.name().chars().take(30).collect::<String>(), data.len(), crate::content::crc32(data), f.crc32()));
+                }
+            });
+        }
+    };
+    if let Ok(mut f) = ar.by_index(i) {
+        if bounded(&f) {
+            let mut v = Vec::new();
+            let r = f.read_to_end(&mut v);
+            if r.is_ok() {
+                note_crc(&f, &v, "read_to_end");
+            }
+            h = mix(h, mix(v.len() as u64, r.is_ok() as u64));
+        }
+    }
+    if let Ok(mut f) = ar.by_index(i) {
+        if bounded(&f) {
+            let mut v: Vec<u8> = Vec::new();
+            let r = std::io::copy(&mut f, &mut v);
+            if r.is_ok() {
+                note_crc(&f, &v, "io::copy");
+            }
+            h = mix(h, mix(v.len() as u64, r.is_ok() as u64));
+        }
+    }
+    if let Ok(mut f) = ar.by_index(i) {
+        if bounded(&f) {
+            let mut t = String::new();
+            let r = f.read_to_string(&mut t);
+            h = mix(h, mix(t.len() as u64, r.is_ok() as u64));
+        }
+    }
+    if let Ok(mut f) = ar.by_index(i) {
+        let mut b = [0u8; 7];
+        let r = f.read_exact(&mut b);
+        h = mix(h, r.is_ok() as u64);
+        let mut n = 0u64;
+        for x in (&mut f).bytes().take(300) {
+            if x.is_err() {
+                break;
+            }
+            n += 1;
+        }
+        h = mix(h, n);
+    }
+    if let Ok(mut f) = ar.by_index_raw(i) {
+        let mut v = Vec::new();
+        let r = f.read_to_end(&mut v);
+        h = mix(h, mix(v.len() as u64, r.is_ok() as u64));
+    }
+    h
+}
+
 thread_local! {
     pub static CRC_BAD: std::cell::RefCell<Option<String>> = std::cell::RefCell::new(None);
 }
@@ -376,6 +447,9 @@ pub fn drive(img: &[u8], pw: &[u8], bufs: &[u32], ctx: &mut Ctx) -> Result<(u64,
                 let mut b = [0u8; 3];
                 let _ = f.read(&mut b);
             }
+            if i < 6 {
+                sig = mix(sig, std_read_paths(&mut ar, i, len));
+            }
         }
         let _ = ar.by_index(n);
         let _ = ar.by_index(usize::MAX);
@@ -406,7 +480,14 @@ pub fn drive(img: &[u8], pw: &[u8], bufs: &[u32], ctx: &mut Ctx) -> Result<(u64,
                 Ok(Some(mut f)) => {
                     count += 1;
                     ctx.probe("stream_entry_opened");
-                    if count % 2 == 0 || len % 3 == 0 {
+                    #[allow(deprecated)]
+                    let m = f.compression().to_u16();
+                    if count % 3 == 2 && (m == 0 || m == 8) && len <= 65536 {
+                        // std's provided read_to_end on a streamed entry (see std_read_paths)
+                        let mut v = Vec::new();
+                        let r = f.read_to_end(&mut v);
+                        sig = mix(sig, mix(v.len() as u64, r.is_ok() as u64));
+                    } else if count % 2 == 0 || len % 3 == 0 {
                         sig = mix(sig, touch2(&mut f, bufs, cap, true));
                     } else {
                         let _ = f.name().len();
@@ -513,6 +594,20 @@ impl Scenario for Hostile {
                                 e.extra_local = Hex(vec![]);
                             }
                             e.trailing_pad = e.trailing_pad.min(8);
+                        }
+                    }
+                    if r.chance(1, 5) {
+                        // left-over AES record on an entry that is not encrypted (local, central or both)
+                        for e in l.entries.iter_mut().filter(|e| e.enc.is_none()) {
+                            let mut rec = vec![0x01, 0x99, 0x07, 0x00, r.range(1, 2) as u8, 0x00, b'A', b'E', r.range(1, 3) as u8];
+                            rec.extend_from_slice(&e.method.to_le_bytes());
+                            let wh = r.below(3);
+                            if wh != 1 {
+                                e.extra_local.0.extend_from_slice(&rec);
+                            }
+                            if wh != 0 {
+                                e.extra_central.0.extend_from_slice(&rec);
+                            }
                         }
                     }
                     // make the AES / ZipCrypto cases frequent: they own several of the weak points
